@@ -218,7 +218,7 @@ def handler_stream(c):
 
 
 C05_THEOREMS = ["SolOutM.sampleStep_spec", "SolOutM.sampleStep_lengths", "SolOutM.runTimes_forward", "SolOutM.runRest_nil_of_last",
-                "SolOutM.teval_exact_times_forward", "SolOutM.teval_early_stop_forward", "SolOutM.dueBeforeEvent_tEvents",
+                "SolOutM.teval_exact_times_forward", "SolOutM.teval_exact_times_backward", "SolOutM.runTimes_mirror", "SolOutM.teval_early_stop_forward", "SolOutM.dueBeforeEvent_tEvents",
                 "SolOutM.outputPhase_prevEvent"]
 
 
@@ -229,7 +229,7 @@ def c05(c):
         generic_monitor(c, "teval_check", ["teval-check", c.seed, 300 if c.tier == "quick" else 6000], "te")
     c.cov["samples"] += [{"theorem": "SolOutM.teval_exact_times_forward",
                           "statement": "0 ≤ tol → rem sorted → (∀ t ∈ rem, x0 + tol < t) → x0 < x1 < … chain → last = xlast → (∀ t ∈ rem, t ≤ xlast + tol) → runTimes true tol rem x0 xs = rem"}]
-    c.partial = ["backward integration: same functions with the mirrored windows (`inUpper false`, `inLower false`); the list theorem is proved for the forward order, the backward order is covered by co-simulation and the monitor",
+    c.partial = [
                  "accuracy of the interpolated values is C07; independence from dense_output is C12 + monitor (runs compared bitwise)",
                  "requests within the 1e-12 comparison tolerance beyond an early stop may still be reported (handler tolerance window)"]
 
@@ -289,7 +289,7 @@ def only_keys(c, prefixes):
 
 
 C03_THEOREMS = ["Ctl.hAdjust_lands", "Ctl.hIter_success_at_xend", "Ctl.hLoop_success_at_xend", "Ctl.dopri5Params_guard",
-                "Ctl.dop853Params_guard", "Ctl.hIter_cases", "Ctl.hSolve_protocol", "rowsum_rk4", "rowsum_rk23", "rowsum_dopri5", "rowsum_dop853"]
+                "Ctl.dop853Params_guard", "Ctl.hIter_cases", "Ctl.hSolve_protocol", "Ctl.rk23Adjust_lands", "Ctl.rk23Loop_success_at_xend", "Ctl.rk4Loop_success_at_xend", "rowsum_rk4", "rowsum_rk23", "rowsum_dopri5", "rowsum_dop853"]
 
 
 def c03(c):
